@@ -7,6 +7,7 @@
 struct vargs va;
 
 static long n_cases, n_nontrivial, n_viol;
+static char *known_keys[64]; static int n_known_keys;
 #define MAX_OBS 96
 static struct { char name[48]; long v; bool is_max; } obs[MAX_OBS];
 static int n_obs;
@@ -44,6 +45,8 @@ void vparse_args(int argc, char **argv)
         else if (!strcmp(a, "--verbose")) va.verbose = true;
         else if (!strncmp(a, "--x-", 4)) i++; /* extra, fetched by varg_extra */
     }
+    const char *kk = getenv("VERIF_KNOWN_KEYS");
+    if (kk && *kk) { char *dup = strdup(kk); for (char *t = strtok(dup, "\n"); t && n_known_keys < 64; t = strtok(NULL, "\n")) known_keys[n_known_keys++] = t; }
     sigs = calloc(SIG_CAP, sizeof(uint64_t));
     setvbuf(stdout, NULL, _IOLBF, 0);
 }
@@ -91,7 +94,11 @@ void vviol(long case_idx, const char *rule, const char *key, const char *detail_
     va_start(ap, msg_fmt);
     vsnprintf(msg, sizeof msg, msg_fmt, ap);
     va_end(ap);
-    n_viol++;
+    /* a finding listed in known_findings.json is reported (the driver prints KNOWN-FINDING) but does not count as a
+     * violation inside the harness: the case carries on, nothing stops early */
+    bool known = false;
+    for (int i = 0; i < n_known_keys; i++) if (!strcmp(known_keys[i], key)) known = true;
+    if (!known) n_viol++;
     /* one report per distinct key and process; do not flood */
     static uint64_t seen[64]; static int n_seen;
     uint64_t kh = vhash_str(key);
